@@ -1157,6 +1157,49 @@ func opC10Rand(raw json.RawMessage, o *Out) {
 			rec.emit(c10LoopRegion(s2.LoopFromPoints(c10Rev(vs)), "loop/meridian/reversed", desc+" reversed"), wits)
 			pl := s2.Polyline{a, b}
 			c10EmitPolyline(rec, &pl, "polyline/meridian", desc)
+		case "index":
+			// ShapeIndexRegion: the bounds of an index must cover every vertex of its shapes and every
+			// point its polygons contain (closed vertex model of the index itself)
+			ix := s2.NewShapeIndex()
+			var wits []c10Wit
+			ns := 1 + rnd.Intn(3)
+			for k := 0; k < ns; k++ {
+				ctr := c10SpecialPoint(rnd)
+				switch rnd.Intn(3) {
+				case 0:
+					l := s2.RegularLoop(ctr, s1.Angle(math.Pow(10, -rnd.Float64()*6)), 3+rnd.Intn(40))
+					ix.Add(l)
+					wits = append(wits, c10LoopWits(c10Clone(l.Vertices()), ctr, false)...)
+				case 1:
+					pl := s2.Polyline{ctr, c10SpecialPoint(rnd), c10RandPoint(rnd)}
+					if pl[0].Add(pl[1].Vector) == (r3.Vector{}) || pl[1].Add(pl[2].Vector) == (r3.Vector{}) {
+						continue
+					}
+					ix.Add(&pl)
+					for _, v := range pl {
+						wits = append(wits, c10Wit{p: v, tag: "vertex"})
+					}
+				default:
+					pv := s2.PointVector{ctr, c10RandPoint(rnd)}
+					ix.Add(&pv)
+					for _, v := range pv {
+						wits = append(wits, c10Wit{p: v, tag: "vertex"})
+					}
+				}
+			}
+			if len(wits) == 0 {
+				continue
+			}
+			isV := map[s2.Point]bool{}
+			for _, w := range wits {
+				if w.tag == "vertex" {
+					isV[w.p] = true
+				}
+			}
+			q := s2.NewContainsPointQuery(ix, s2.VertexModelClosed)
+			reg := ix.Region()
+			rec.emit(&c10Region{kind: "index", cls: "shapeindex-region", rect: reg.RectBound(), capb: reg.CapBound(), cov: reg.CellUnionBound(),
+				own: func(p s2.Point) bool { return isV[p] || q.Contains(p) }, desc: fmt.Sprintf("ShapeIndexRegion of %d shapes (seed item %d)", ns, it)}, wits)
 		case "polyline":
 			n := 2 + rnd.Intn(6)
 			var vs []s2.Point
